@@ -1085,11 +1085,121 @@ Proof.
   exists t. rewrite Hp. auto.
 Qed.
 
+(* ============================================================== end to end *)
+Lemma pat_update_absent text mask e ps :
+  pat_mem text ps = false -> pat_update text mask e ps = ps.
+Proof.
+  induction ps as [|p ps IH]; cbn [pat_mem pat_update]; [reflexivity|].
+  intros H. apply orb_false_iff in H as [H1 H2]. rewrite H1, (IH H2).
+  reflexivity.
+Qed.
+
+Lemma pat_update_snoc text mask e ps p :
+  pat_mem text ps = false -> p_text p = text ->
+  pat_update text mask e (ps ++ [p]) =
+  ps ++ [mkPat (p_text p) (p_re p) (p_n p) (fan mask e meths (p_tab p))].
+Proof.
+  induction ps as [|q ps IH]; cbn [pat_mem List.app pat_update]; intros H E.
+  - rewrite E, lz_eqb_refl. reflexivity.
+  - apply orb_false_iff in H as [H1 H2]. rewrite H1, (IH H2 E). reflexivity.
+Qed.
+
+Lemma has_group_names ps : has_group ps = true -> grp_names ps <> [].
+Proof.
+  induction ps as [|[c|nm filt] ps IH]; cbn [has_group existsb is_grp grp_names].
+  - discriminate.
+  - exact IH.
+  - discriminate.
+Qed.
+
+Section EndToEnd.
+  Variable U : uclass.
+
+  (* A <name:filter> route registered (as a new pattern) on an application
+     a: a request whose method is among the route's and that no static
+     route and no earlier pattern claims runs the route's handler exactly
+     when the path is in the route's language, and then with the
+     converters applied to the segments; otherwise the route is passed
+     over. *)
+  Theorem group_route_dispatch a uri f mask a' r n cvs t :
+    compile_route U (a_filters a) uri = Some (r, n) ->
+    compile_text U (a_filters a) uri = Ok t ->
+    converters (a_filters a) (scan_uri U uri) = Ok cvs ->
+    pat_mem t (a_pats a) = false ->
+    set_route U a uri f mask = Ok a' ->
+    forall debug root fs method raw,
+      let m := method_number method in
+      let path := req_path raw in
+      lget path (a_static a) = None ->
+      (forall q, In q (a_pats a) ->
+                 ~ (MatchesPrefix U (p_re q) path /\ zmem m (p_tab q) = true)) ->
+      existsb (Z.eqb m) meths = true -> has_bit mask m = true ->
+      (InRoute U (a_filters a) uri path ->
+       exists vs,
+         Segments U (a_filters a) (scan_uri U uri) path vs /\
+         select U a' debug root fs method raw =
+         match convert_segs U cvs vs with
+         | Ok pargs => SHandler f (map snd pargs) pargs uri
+         | Raised "raise" => SConvError
+         | Raised _ => SUnknown
+         end) /\
+      (~ InRoute U (a_filters a) uri path ->
+       select U a' debug root fs method raw = fallback a' debug root fs m path).
+  Proof.
+    intros Hc Ht Hv Hnew Hs debug root fs method raw m path Hst Hearlier Hm Hb.
+    destruct (compile_bridge U _ uri r n Hc) as (t' & Ht' & Hp).
+    rewrite Ht in Ht'. injection Ht' as <-.
+    assert (Hg : has_group (scan_uri U uri) = true).
+    { unfold compile_route in Hc. destruct (has_group (scan_uri U uri));
+        [reflexivity|discriminate]. }
+    unfold set_route in Hs. rewrite Hg in Hs. unfold compile_text in Ht.
+    rewrite Ht, Hv in Hs. unfold set_regular in Hs. rewrite Hp, Hnew in Hs.
+    injection Hs as <-.
+    set (e := mkPE f cvs (Some uri)).
+    set (p := mkPat t r n (fan mask e meths [])).
+    assert (Hpats : pat_update t mask e (a_pats a ++ [mkPat t r n []]) =
+                    a_pats a ++ [p]).
+    { rewrite pat_update_snoc by (assumption || reflexivity). reflexivity. }
+    assert (He : zget m (p_tab p) = Some e).
+    { cbn [p p_tab]. rewrite zget_fan, Hm, Hb. reflexivity. }
+    assert (Huri : exists x u, uri = x :: u).
+    { destruct uri as [|x u]; [discriminate|]. eauto. }
+    assert (Hcv : exists cv0 cvs0, cvs = cv0 :: cvs0).
+    { pose proof (converters_names _ _ _ Hv) as Hn.
+      pose proof (has_group_names _ Hg) as Hne.
+      destruct cvs as [|cv0 cvs0]; [cbn in Hn; congruence|]. eauto. }
+    split.
+    - intros Hin.
+      assert (Hpre : MatchesPrefix U r path).
+      { apply re_match_some_iff.
+        apply (route_language_match U (a_filters a) uri r n path Hc). assumption. }
+      destruct (first_pattern_wins U
+                  (mkApp (a_static a) (pat_update t mask e (a_pats a ++ [mkPat t r n []]))
+                         (a_defaults a) (a_filters a))
+                  debug root fs method raw (a_pats a) p [] e Hst Hpats Hearlier
+                  Hpre He)
+        as (c & rest & Hmatch & Hsel).
+      destruct (captures_by_name U (a_filters a) uri r n cvs path c rest Hc Hv Hmatch)
+        as (vs & -> & Hseg & _ & Hconv).
+      exists vs. split; [assumption|]. rewrite Hsel. unfold run_entry.
+      cbn [p e pe_rule pe_convs pe_fun p_re p_text].
+      destruct Huri as (x & u & ->). destruct Hcv as (cv0 & cvs0 & ->).
+      rewrite Hconv. reflexivity.
+    - intros Hnot. apply no_route_fallback; [assumption|].
+      cbn [a_pats]. rewrite Hpats. intros q Hq [Hq1 Hq2].
+      apply in_app_or in Hq as [Hq|[<-|[]]].
+      + apply (Hearlier q Hq). auto.
+      + apply Hnot.
+        apply (route_language_match U (a_filters a) uri r n path Hc).
+        apply re_match_some_iff. exact Hq1.
+  Qed.
+End EndToEnd.
+
 (* ================================================================= examples *)
 (* non-vacuity of the hypotheses above, and the trailing-newline question:
    with \Z at the end of the generated pattern "/i/12\n" is NOT in the
    language of /i/<n:int> (it was with "$"); a segment may contain a
-   newline only where its filter admits one ([^/]+ does). *)
+   newline only where its filter lets one through ([^/]+ does). *)
 Definition U0 : uclass := mkU (fun _ => false) (fun _ => false) (fun _ => false)
                               (fun _ => 0).
 
